@@ -404,11 +404,11 @@ def run(prop, tier, only=None, corrupt=None, cpu=True):
     ranked = sorted(allbad.values(), key=lambda x: (x[0]["why"] not in ("go-panic", "hang"), -x[1]))
     for sig, count, replay in ranked:
         rep.violation(sig, replay)
-    for sig, count, replay in ranked:
-        for _ in range(count - 1):
-            rep.violation(sig, replay)
     if cpu:
         cpu_clause(rep, drv)
+    for sig, count, replay in ranked:      # the remaining occurrences (counted per known finding)
+        for _ in range(count - 1):
+            rep.violation(sig, replay)
     rep.assumptions += [
         "compared per call: error vs values, positions, captures, gsub result and count, the gmatch sequence; never message texts",
         "gmatch with a pattern starting with '^', %1 in a replacement for a pattern without captures, %x with x alphanumeric "
